@@ -25,6 +25,7 @@ type SEnv struct {
 	block   *ssa.BasicBlock // current block (for local lookup), may be nil
 	depth   int
 	qfacts  *[]Term
+	assumeMode bool // the formula being evaluated will be assumed, not proved
 	localsFirst bool // identifiers denote current values of locals/params (loop invariants, call-site asserts)
 }
 
@@ -304,17 +305,37 @@ func (e *SEnv) quant(x *SQuant) Val {
 		n.vars[v.Name] = val
 		_ = guards
 	}
-	var facts []Term
-	n.qfacts = &facts
+	var fa, fc []Term
 	vc.inQuant++
-	body := n.evalBool(x.Body)
+	var body Term
+	if imp, ok := x.Body.(*SBin); ok && imp.Op == "==>" && x.Forall {
+		n.qfacts = &fa
+		a := n.evalBool(imp.L)
+		n.qfacts = &fc
+		c := n.evalBool(imp.R)
+		if e.assumeMode {
+			body = tImp(tAnd(append(dedupTerms(fa), a)...), tAnd(append(dedupTerms(fc), c)...))
+		} else {
+			body = tImp(tAnd(append(append(dedupTerms(fa), a), dedupTerms(fc)...)...), c)
+		}
+	} else {
+		n.qfacts = &fc
+		b := n.evalBool(x.Body)
+		switch {
+		case x.Forall && e.assumeMode:
+			body = tAnd(append(dedupTerms(fc), b)...)
+		case x.Forall:
+			body = tImp(tAnd(dedupTerms(fc)...), b)
+		case e.assumeMode:
+			body = tAnd(append(dedupTerms(fc), b)...)
+		default:
+			body = b
+		}
+	}
 	vc.inQuant--
 	q := "exists"
 	if x.Forall {
 		q = "forall"
-		body = tImp(tAnd(dedupTerms(facts)...), body)
-	} else {
-		body = tAnd(append(dedupTerms(facts), body)...)
 	}
 	return boolVal(fmt.Sprintf("(%s (%s) %s)", q, strings.Join(binders, " "), body))
 }
@@ -494,25 +515,44 @@ func (e *SEnv) fieldOf(base Val, name string) Val {
 	if !ok || !fv.IsField() {
 		e.fail("%v has no field %s", base.T, name)
 	}
+	// walk the path accumulating offsets; only pointer fields on the way and
+	// the final field are loaded
 	cur := base
+	inMem := false // cur.S = (ref, off) address of a value of type curT
+	curT := base.T
+	var ref, off Term
 	for _, idx := range path {
-		t := types.Unalias(cur.T)
-		if pt, isPtr := t.Underlying().(*types.Pointer); isPtr {
-			stt := pt.Elem().Underlying().(*types.Struct)
-			off := vc.p.lay.fieldOffset(stt, idx)
-			ft := stt.Field(idx).Type()
-			o := cur.Old
-			cur = e.load(e.stOf(cur), cur.S[0], tAdd(cur.S[1], tInt(int64(off))), ft)
-			cur.Old = o
-			continue
+		t := types.Unalias(curT)
+		if !inMem {
+			if pt, isPtr := t.Underlying().(*types.Pointer); isPtr {
+				ref, off = cur.S[0], cur.S[1]
+				inMem = true
+				t = types.Unalias(pt.Elem())
+			}
+		} else if pt, isPtr := t.Underlying().(*types.Pointer); isPtr {
+			// pointer stored in memory: load it, continue at its target
+			p := e.load(e.stOf(cur), ref, off, t)
+			ref, off = p.S[0], p.S[1]
+			t = types.Unalias(pt.Elem())
 		}
 		stt, isSt := t.Underlying().(*types.Struct)
 		if !isSt {
-			e.fail("field %s of non-struct %v", name, cur.T)
+			e.fail("field %s of non-struct %v", name, curT)
 		}
-		off := vc.p.lay.fieldOffset(stt, idx)
+		fo := vc.p.lay.fieldOffset(stt, idx)
 		ft := stt.Field(idx).Type()
-		cur = Val{T: ft, S: cur.S[off : off+vc.p.lay.size(ft)], Old: cur.Old}
+		if inMem {
+			off = tAdd(off, tInt(int64(fo)))
+		} else {
+			cur = Val{T: ft, S: cur.S[fo : fo+vc.p.lay.size(ft)], Old: cur.Old}
+		}
+		curT = ft
+	}
+	if inMem {
+		o := cur.Old
+		r := e.load(e.stOf(cur), ref, off, curT)
+		r.Old = o
+		return r
 	}
 	return cur
 }
